@@ -611,3 +611,18 @@ def _unit_range_syntactic(m, run, names, mods):
                    'valid parameters are rejected', site(fi, c))
     return n
 
+
+
+
+def shared_dependencies(m, run):
+    """what the knot operations rest on besides their own code: the evaluators (the shape is what they evaluate to: EVX, shared with
+    C01) and history independence of the helper module (no helper keeps values in a module-level object between calls: PU5)"""
+    from . import skel_drivers as _sd
+    from .pure import Purity
+    _sd.evx(m, run)
+    P0 = Purity(m)
+    for fi_ in [f for f in m.functions_in('helpers') if f.kind == 'function']:
+        mg = [mu for mu in P0.summary(fi_).mutations if mu.root.startswith('global:')]
+        run.ob('PU5.no-module-state', fi_.key, not mg, 'no module-level state written' if not mg else
+               '%s: %s at `%s` - a value computed for one call is kept in a module-level object and can be served to a later call with other arguments' % (mg[0].root, mg[0].how[:60], norm(mg[0].node)[:70]),
+               'geomdl/helpers.py:%s in %s' % (getattr(mg[0].node, 'lineno', '?') if mg else fi_.node.lineno, fi_.key))
